@@ -11,6 +11,7 @@ package main
 //   m_name / m_group: pattern i matches the name / its group; is_name / is_group: the text of pattern i equals it
 
 import (
+	"time"
 	"fmt"
 	"os"
 	"path/filepath"
@@ -107,6 +108,80 @@ func verifTagsCase(w interface{ WriteString(string) (int, error) }, tmp string, 
 	w.WriteString(out.String())
 }
 
+// verifInheritCase: a sender with several sources; a later source may give no tags (it takes the tag
+// list of the source before it - the same objects) and may give its own bin-size. Every source is
+// initialised by the REAL clientApp.init(), in configuration order (as app.startClients() does), then a
+// big file is pushed into each source's real queue for each tag and the first chunk is looked at.
+//
+// line: GI nsrc {bin ntags|-1 {chunk}*ntags}*nsrc = {ntags {firstchunk}*ntags}*nsrc      (sizes in bytes, 0 = omitted)
+func verifInheritCase(w interface{ WriteString(string) (int, error) }, tmp string, id int, bins []int64, tags [][]int64) {
+	root := filepath.Join(tmp, fmt.Sprintf("inh%d", id))
+	os.RemoveAll(root)
+	defer os.RemoveAll(root)
+	pats := []string{"DEFAULT", "^t1/", "^t2/", "^t3/"}
+	files := []string{"zz/f.dat", "t1/f.dat", "t2/f.dat", "t3/f.dat"}
+	var sb strings.Builder
+	fmt.Fprintf(&sb, "dirs:\n  cache : %s\n  logs  : %s\n  out   : %s\nsources:\n", filepath.Join(root, "cache"), filepath.Join(root, "logs"), filepath.Join(root, "out"))
+	var line strings.Builder
+	fmt.Fprintf(&line, "GI %d", len(bins))
+	for i := range bins {
+		fmt.Fprintf(&sb, "  - name    : s%d\n    out-dir : %s\n    log-dir : %s\n", i, filepath.Join(root, "out", fmt.Sprint("s", i)), filepath.Join(root, "logs", fmt.Sprint("s", i)))
+		if i == 0 {
+			sb.WriteString("    threads : 1\n    target:\n      name      : tgt\n      http-host : localhost:1992\n")
+		}
+		if bins[i] != 0 {
+			fmt.Fprintf(&sb, "    bin-size : %dB\n", bins[i])
+		}
+		if tags[i] == nil {
+			fmt.Fprintf(&line, " %d -1", bins[i])
+			continue
+		}
+		fmt.Fprintf(&line, " %d %d", bins[i], len(tags[i]))
+		sb.WriteString("    tags:\n")
+		for j, c := range tags[i] {
+			fmt.Fprintf(&sb, "      - pattern  : '%s'\n        priority : %d\n", pats[j], j)
+			if j == 0 {
+				sb.WriteString("        order    : fifo\n        method   : http\n")
+			}
+			if c != 0 {
+				fmt.Fprintf(&sb, "        chunk-size : %dB\n", c)
+			}
+			fmt.Fprintf(&line, " %d", c)
+		}
+	}
+	conf := &sts.ClientConf{}
+	if err := yaml.Unmarshal([]byte(sb.String()), conf); err != nil {
+		panic(err.Error() + "\n" + sb.String())
+	}
+	var apps []*clientApp
+	for _, src := range conf.Sources {
+		app := &clientApp{dirCache: filepath.Join(root, "cache"), conf: src}
+		if err := app.init(); err != nil {
+			panic(err)
+		}
+		defer app.destroy()
+		apps = append(apps, app)
+	}
+	line.WriteString(" =")
+	const big = 64 << 20
+	for _, app := range apps {
+		fmt.Fprintf(&line, " %d", len(app.conf.Tags))
+		for j := range app.conf.Tags {
+			q := app.broker.Conf.Queue
+			q.Push([]sts.Hashed{&mock.File{Name: files[j], Size: big, Time: time.Now().Add(-time.Hour), Hash: "0123456789abcdef0123456789abcdef"}})
+			first := int64(-1)
+			if c := q.Pop(); c != nil {
+				_, first = c.GetSlice()
+			}
+			for q.Pop() != nil {
+			}
+			fmt.Fprintf(&line, " %d", first)
+		}
+	}
+	line.WriteString("\n")
+	w.WriteString(line.String())
+}
+
 func TestVerifTags(t *testing.T) {
 	w, done, ok := gen.Out()
 	if !ok {
@@ -117,6 +192,32 @@ func TestVerifTags(t *testing.T) {
 	tmp := os.Getenv("VERIF_TMP")
 	if tmp == "" {
 		tmp = t.TempDir()
+	}
+	// inheritance between the sources of one sender: tags and bin-size
+	{
+		sizes := []int64{0, 0, 64 << 10, 128 << 10, 1 << 20, 2 << 20}
+		chunks := []int64{0, 0, 0, 32 << 10, 256 << 10}
+		ni := gen.EnvInt("VERIF_INHERIT_N", 60)
+		b0 := gen.New(gen.Seed() ^ 0x1A4E)
+		for i := 0; i < ni; i++ {
+			r := b0.Sub(uint64(i))
+			ns := 2 + r.Intn(3)
+			var bins []int64
+			var tags [][]int64
+			for k := 0; k < ns; k++ {
+				bins = append(bins, sizes[r.Intn(len(sizes))])
+				if k > 0 && r.Chance(1, 2) {
+					tags = append(tags, nil)
+					continue
+				}
+				var tl []int64
+				for j := 0; j < 1+r.Intn(4); j++ {
+					tl = append(tl, chunks[r.Intn(len(chunks))])
+				}
+				tags = append(tags, tl)
+			}
+			verifInheritCase(w, tmp, i, bins, tags)
+		}
 	}
 	n := gen.EnvInt("VERIF_N", 150)
 	base := gen.New(gen.Seed() ^ 0x7A65)
